@@ -71,6 +71,78 @@ impl Join for RayonJoin {
     }
 }
 
+// Verification hook (off unless built with --cfg blake3_team_blake3_verif and the `std` feature):
+// a `Join` implementation whose order of execution is scripted by a test harness. The harness
+// installs a decision function `(path, depth) -> {0: left first, 1: right first, 2: concurrently,
+// on two threads}`; `path` identifies the node of the split tree (1 at the root, then `2 * path`
+// for the left half and `2 * path + 1` for the right half), so the schedule is a pure function of
+// the script even when the halves really run in parallel.
+#[cfg(all(blake3_team_blake3_verif, feature = "std"))]
+pub mod verif {
+    use super::Join;
+    use std::cell::Cell;
+    use std::sync::atomic::{AtomicUsize, Ordering};
+
+    std::thread_local! {
+        static PATH: Cell<(u64, u32)> = Cell::new((1, 0));
+    }
+    static DECIDER: AtomicUsize = AtomicUsize::new(0);
+
+    pub fn set_decider(decider: Option<fn(u64, u32) -> u8>) {
+        DECIDER.store(decider.map(|f| f as usize).unwrap_or(0), Ordering::SeqCst);
+        PATH.with(|p| p.set((1, 0)));
+    }
+
+    pub enum ScriptedJoin {}
+
+    impl Join for ScriptedJoin {
+        fn join<A, B, RA, RB>(oper_a: A, oper_b: B) -> (RA, RB)
+        where
+            A: FnOnce() -> RA + Send,
+            B: FnOnce() -> RB + Send,
+            RA: Send,
+            RB: Send,
+        {
+            let raw = DECIDER.load(Ordering::SeqCst);
+            if raw == 0 {
+                return (oper_a(), oper_b());
+            }
+            let decider: fn(u64, u32) -> u8 = unsafe { core::mem::transmute(raw) };
+            let (path, depth) = PATH.with(|p| p.get());
+            let left = (path << 1, depth + 1);
+            let right = ((path << 1) | 1, depth + 1);
+            let result = match decider(path, depth) {
+                0 => {
+                    PATH.with(|p| p.set(left));
+                    let ra = oper_a();
+                    PATH.with(|p| p.set(right));
+                    let rb = oper_b();
+                    (ra, rb)
+                }
+                1 => {
+                    PATH.with(|p| p.set(right));
+                    let rb = oper_b();
+                    PATH.with(|p| p.set(left));
+                    let ra = oper_a();
+                    (ra, rb)
+                }
+                _ => std::thread::scope(|s| {
+                    let handle = s.spawn(move || {
+                        PATH.with(|p| p.set(right));
+                        oper_b()
+                    });
+                    PATH.with(|p| p.set(left));
+                    let ra = oper_a();
+                    let rb = handle.join().unwrap();
+                    (ra, rb)
+                }),
+            };
+            PATH.with(|p| p.set((path, depth)));
+            result
+        }
+    }
+}
+
 #[cfg(test)]
 mod test {
     use super::*;
